@@ -41,12 +41,31 @@ type StructDataProvider struct {
 }
 
 func (s *StructDataProvider) Get(key string) any {
-	field := s.value.FieldByName(key)
+	field := fieldByName(s.value, key)
 	if !field.IsValid() || !field.CanInterface() {
 		// missing or unexported field: absent
 		return nil
 	}
 	return field.Interface()
+}
+
+// fieldByName is reflect.Value.FieldByName that yields the zero Value instead of panicking
+// when the field is promoted through a nil embedded pointer.
+func fieldByName(v reflect.Value, name string) reflect.Value {
+	sf, ok := v.Type().FieldByName(name)
+	if !ok {
+		return reflect.Value{}
+	}
+	for _, i := range sf.Index {
+		if v.Kind() == reflect.Pointer {
+			if v.IsNil() {
+				return reflect.Value{}
+			}
+			v = v.Elem()
+		}
+		v = v.Field(i)
+	}
+	return v
 }
 
 func (s *StructDataProvider) GetByField(field reflect.StructField, fallback string) (any, string) {
